@@ -1054,6 +1054,89 @@ func (w *World) Exec(op hx.Zs) []hx.Zs {
 		}
 		fl.AddResultCallback(w.callback(cb))
 		w.nCbs++
+	case 12: // ParArrive: overlapping arrivals of one datagram on several connections, racing with a registration
+		late, pf := r.n(), r.n()
+		ps := r.eaddr()
+		d := r.dgram()
+		b, err := json.Marshal(model.Datagram{Datagram: d.datagram()})
+		if err != nil {
+			panic(err)
+		}
+		var live []int64
+		for _, p := range ps {
+			if pr := w.peers[p]; pr != nil && !pr.gone {
+				live = append(live, p)
+			}
+		}
+		var fl api.FeatureLocalInterface
+		doReg := late != 0 && d.Ref != 0 && d.Dst.Feat != 0
+		if doReg {
+			fl = w.localFeature(d.Dst.Ent, d.Dst.Feat-1)
+			if fl == nil {
+				ret = append(ret, hx.Zs{6})
+				doReg = false
+			}
+		}
+		total := int32(len(live))
+		if doReg {
+			total++
+			w.nCbs++
+		}
+		// released together: every goroutine announces itself and spins until all are there
+		var ready atomic.Int32
+		barrier := func() {
+			ready.Add(1)
+			for i := 0; ready.Load() < total; i++ {
+				if i > 2000 {
+					runtime.Gosched()
+				}
+			}
+		}
+		var wg sync.WaitGroup
+		for _, p := range live {
+			wg.Add(1)
+			go func(p int64) {
+				defer wg.Done()
+				barrier()
+				w.InjectRaw(p, b)
+			}(p)
+		}
+		var regOK int64
+		if doReg {
+			wg.Add(1)
+			cb := w.callback(late - 1)
+			go func() {
+				defer wg.Done()
+				barrier()
+				regOK = b2i(fl.AddResponseCallback(model.MsgCounterType(d.Ref-1), cb) == nil)
+			}()
+		}
+		wg.Wait()
+		if doReg {
+			ret = append(ret, hx.Zs{4, regOK})
+		}
+		w.InjectRaw(pf, b)
+		w.settle()
+		stats["overlapping-operations"]++
+		if len(live) >= 2 {
+			stats["overlapping-operations:with-2+-live-arrivals"]++
+		}
+		if doReg {
+			stats["overlapping-operations:with-racing-registration"]++
+		}
+		stats["overlapping-arrivals"] += len(live)
+		var out []hx.Zs
+		for _, o := range w.drain() {
+			switch {
+			case len(o) > 4 && o[0] == 3:
+				o[4] = 0 // which arrival won is the schedule's business
+				out = append(out, o)
+				stats["callback-invocations"]++
+			case len(o) > 0 && o[0] == 97:
+				out = append(out, o)
+			}
+		}
+		return append(out, ret...)
 	case 11: // QFactory
 		t := r.n()
 		ft := FeatureType(t)
